@@ -534,6 +534,15 @@ impl ObjectIdentifierArc {
             _ => None,
         }
     }
+
+    /// The arcs below `{itu-t recommendation}` are named after the series of
+    /// ITU-T Recommendations, `a(1)` to `z(26)`
+    pub(crate) fn recommendation_series(name: Option<&String>) -> Option<u128> {
+        match name?.as_bytes() {
+            [letter @ b'a'..=b'z'] => Some(u128::from(letter - b'a') + 1),
+            _ => None,
+        }
+    }
 }
 
 impl From<u128> for ObjectIdentifierArc {
